@@ -186,12 +186,12 @@ CHECK_DEADLOCK FALSE
            [("long-%d-" % i) + "x" * (240 - i % 7) for i in range(nkeys // 8)] + ["ké-%d" % i for i in range(nkeys // 8)]
     kid = {k: i + 1 for i, k in enumerate(keys)}
 
-    def observe(h, ranks, ev, keyset):
+    def observe(h, ranks, ev, keyset, seed=0):
         order = [ranks[x] for x in h.nodes]
         ev.append({"e": "rot", "nodes": order})
         for k in keyset:
             w = h.get_node(k)
-            ev.append({"e": "place", "k": kid[k], "sc": [[ranks[n]] + word(murmur3_32("%s-%s" % (n, k))) for n in h.nodes],
+            ev.append({"e": "place", "k": kid[k], "sc": [[ranks[n]] + word(murmur3_32("%s-%s" % (n, k), seed)) for n in h.nodes],
                        "w": ranks.get(w, 0)})
 
     jobs = []      # for the child interpreters
@@ -239,6 +239,27 @@ CHECK_DEADLOCK FALSE
                 h.remove_node(rnd.choice(present))
             observe(h, ranks, ev, ks)
         traces.append({"h": {}, "ev": ev, "what": ("history", hi)})
+    # seeds other than the default, and copies of a hasher (copy / deepcopy: a client object that is copied keeps its
+    # placement): the score is murmur3 of "<node>-<key>" with THAT seed
+    import copy
+    for seed in (0, 1, 12345, 2 ** 31, 2 ** 32 - 1):
+        names = pool[:4]
+        ranks = {n: i + 1 for i, n in enumerate(sorted(names))}
+        ev = []
+        h = RendezvousHash(list(names), seed=seed)
+        ks = keys[:: 3]
+        observe(h, ranks, ev, ks, seed)
+        for dup in (copy.copy, copy.deepcopy):
+            try:
+                h2 = dup(h)
+            except Exception:   # noqa -- a hasher that cannot be copied is not wrong
+                continue
+            observe(h2, ranks, ev, ks[:: 2], seed)
+            h2.remove_node(names[1])
+            observe(h2, ranks, ev, ks[:: 4], seed)
+            h2.add_node(names[1])
+        observe(h, ranks, ev, ks[:: 4], seed)
+        traces.append({"h": {}, "ev": ev, "what": ("seed-and-copies", seed)})
     # spread over a corpus
     for size in (2, 3, 5, 8):
         names = pool[:size]
@@ -275,11 +296,14 @@ CHECK_DEADLOCK FALSE
 
         def close(self):
             pass
-    canon = [("10.0.0.1", 11211), ("10.0.0.2", 11212), ("::1", 11213), "/var/run/mc.sock", ("mc.example.com", 11211)]
+    canon = [("10.0.0.1", 11211), ("10.0.0.2", 11212), ("::1", 11213), "/var/run/mc.sock", ("mc.example.com", 11211),
+             ("Cache-A.Example.COM", 11300), ("FE80::A1", 11214), "/var/run/MC-Upper.sock"]
     spell = [
         canon,
-        ["10.0.0.1:11211", "10.0.0.2:11212", "[::1]:11213", "unix:/var/run/mc.sock", "mc.example.com"],
-        ["10.0.0.1", ("10.0.0.2", 11212), ("::1", 11213), "/var/run/mc.sock", "mc.example.com:11211"],
+        ["10.0.0.1:11211", "10.0.0.2:11212", "[::1]:11213", "unix:/var/run/mc.sock", "mc.example.com",
+         "Cache-A.Example.COM:11300", "[FE80::A1]:11214", "unix:/var/run/MC-Upper.sock"],
+        ["10.0.0.1", ("10.0.0.2", 11212), ("::1", 11213), "/var/run/mc.sock", "mc.example.com:11211",
+         ("Cache-A.Example.COM", 11300), "[FE80::A1]:11214", "/var/run/MC-Upper.sock"],
     ]
     names = ["%s:%s" % s if isinstance(s, tuple) else s for s in canon]
     ranks = {n: i + 1 for i, n in enumerate(sorted(names))}
